@@ -83,24 +83,33 @@ def _elem_vars(m):
     return [v for _, vs in m["elements"] for v in vs]
 
 
-def ns_agree_everywhere(ctx):
+def ns_agree_everywhere(ctx, inherit=False):
     """`nsAgree` of Bind/F1.lean re-implemented on the exported JSON: for every model-typed element
     var `v` of every class meta `m`, the classes of the model-typed vars of `v`'s class have the same
     metadata (up to the class qname) under the namespace of `v.qname` and under the namespace of the
     class of `v`."""
     classes = {c["id"]: c for c in ctx["classes"]}
+
+    def classes_for(c):
+        """`classesFor` of Bind/FN.lean: the declared class and (with `inherit`) its proper subclasses"""
+        if not inherit:
+            return [c]
+        return [c] + [k["id"] for k in ctx["classes"] if k["id"] != c and c in k["mro"]]
+
     for ci in ctx["classes"]:
         for _, m in ci["metas"]:
             for v in _elem_vars(m):
                 if not v["clazz"]:
                     continue
-                m2 = _meta_for(classes[v["clazz"]], _target_uri(m["qname"]))
-                for w in _elem_vars(m2):
-                    if not w["clazz"]:
-                        continue
-                    c3 = classes[w["clazz"]]
-                    if _drop_q(_meta_for(c3, _target_uri(v["qname"]))) != _drop_q(_meta_for(c3, _target_uri(m2["qname"]))):
-                        return False
+                for k in classes_for(v["clazz"]):
+                    m2 = _meta_for(classes[k], _target_uri(m["qname"]))
+                    for w in _elem_vars(m2):
+                        if not w["clazz"]:
+                            continue
+                        for k3 in classes_for(w["clazz"]):
+                            c3 = classes[k3]
+                            if _drop_q(_meta_for(c3, _target_uri(v["qname"]))) != _drop_q(_meta_for(c3, _target_uri(m2["qname"]))):
+                                return False
     return True
 
 
@@ -272,9 +281,13 @@ def gen_wide(rng, tier):
                    "ignore_default_attributes": rng.random() < 0.3}
 
 
+def _ns_agree_wide(ctx):
+    return ns_agree_everywhere(ctx, inherit=bool(W.FEAT.get("inherit")))
+
+
 def impl_valFN(a):
     """`ctxOK` / `valOK` of Bind/FN.lean against the independent description of the excluded regions"""
-    return {"ok": {"ctx": W.ctx_expected(a["ctx"], ns_agree_everywhere), "val": not W.regions(a["desc"], a["value"], a["ctx"])}}
+    return {"ok": {"ctx": W.ctx_expected(a["ctx"], _ns_agree_wide), "val": not W.regions(a["desc"], a["value"], a["ctx"])}}
 
 
 CORRS.append(
@@ -285,8 +298,8 @@ CORRS.append(
 
 
 def covered_wide(a, msg):
-    if not W.ctx_expected(a["ctx"], ns_agree_everywhere):
-        if not ns_agree_everywhere(a["ctx"]):
+    if not W.ctx_expected(a["ctx"], _ns_agree_wide):
+        if not _ns_agree_wide(a["ctx"]):
             return "C01-ns-chain"
         return "C01-nillable-token-lists-empty / C01-tokens-in-sequence-typeerror / text var with child elements (excluded universes)"
     r = W.regions(a["desc"], a["value"], a["ctx"])
